@@ -68,6 +68,9 @@ fn case_strategy_sized(max_frames: usize, max_steps: usize) -> impl Strategy<Val
                 target,
                 frames,
                 cuts,
+                // one case in four puts the halves together and takes them apart after every
+                // abandoned receive (and before some receives)
+                rejoin: if pend[0] == 3 { 1 + pend.len() as u8 % 3 } else { 0 },
                 pend,
                 cancel,
             }
@@ -262,6 +265,12 @@ fn check_case(case: &RxCase, stats: &mut Stats) -> CaseResult {
             &case.cancel,
         )));
     }
+    if run.rejoins > 0 {
+        stats.class("halves-joined-and-split-between-receives");
+        if run.cancelled_mid_frame {
+            stats.class("joined-and-split-while-holding-a-partial-frame");
+        }
+    }
     if run.cancellations >= 3 {
         stats.class("cancellations>=3");
     }
@@ -339,6 +348,7 @@ pub fn run(ctx: &Ctx) -> i32 {
             cuts: cuts.clone(),
             pend: vec![2],
             cancel,
+            rejoin: (i % 3 == 2) as u8,
         };
         stats.eval();
         stats.class("exhaustive-subset-case");
@@ -369,6 +379,7 @@ pub fn run(ctx: &Ctx) -> i32 {
             cuts: (1..len).collect(),
             pend: vec![3],
             cancel: (1..=total).filter(|n| n % k == 0).collect(),
+            rejoin: (i % 2) as u8,
         };
         stats.eval();
         stats.class("every-kth-case");
